@@ -4,7 +4,7 @@
 From Coq Require Import NArith ZArith List Bool.
 Import ListNotations.
 Require Import UV.C07.Model UV.C07.Check UV.C07.Proofs UV.C07.Replay UV.C07.RecordReplay.
-Require UV.C07.RecordProof UV.C07.Range UV.C07.Multi UV.C07.MultiReplay.
+Require UV.C07.RecordProof UV.C07.RecordProofCyg UV.C07.Range UV.C07.Multi UV.C07.MultiReplay.
 Local Open Scope Z_scope.
 
 (* get_task_ustack's look-ahead list (time filter -t / time=, caller filter -C, `trace`) hands the
@@ -157,6 +157,21 @@ Theorem C07_record_equals_replay : forall c f,
   map RecordProof.strip (rec_then_plain c MC.PG f) = map RecordProof.strip (plain_then_opt c f).
 Proof. exact RecordProof.record_equals_replay_filters. Qed.
 Print Assumptions C07_record_equals_replay.
+
+(* ... and on the -finstrument-functions shape (every call pushes a frame, rejected ones with NORECORD):
+   both shapes write the same data file, so the same agreement holds. *)
+Theorem C07_record_shape_independent : forall c f,
+  RecordProof.filter_only c -> RecordProof.wf_forest c f -> (RecordProof.fheight f <= 1024)%nat ->
+  record (to_mcfg c MC.CYG) f = record (to_mcfg c MC.PG) f.
+Proof. exact RecordProofCyg.record_shape_independent. Qed.
+Print Assumptions C07_record_shape_independent.
+
+Theorem C07_record_equals_replay_cygprof : forall c f,
+  RecordProof.filter_only c -> plt_free_all c -> no_range c = true ->
+  RecordProof.wf_forest c f -> (RecordProof.fheight f <= 1024)%nat ->
+  map RecordProof.strip (rec_then_plain c MC.CYG f) = map RecordProof.strip (plain_then_opt c f).
+Proof. exact RecordProofCyg.record_equals_replay_cyg. Qed.
+Print Assumptions C07_record_equals_replay_cygprof.
 
 (* the other shared options (-t, time=, -C, trace) and the cygprof shape: exhaustive agreement on a bounded
    domain inside the class rr_class_of
